@@ -1,11 +1,13 @@
 #!/bin/sh
 # Runs every claimed check at the given tier (default quick); prints one line per check.
+here=$(cd "$(dirname "$0")/.." && pwd)
 tier=${1:-quick}
 rc=0
 for p in C04 C05 C06 C07 C13 C14 C19; do
-  /verif/bin/vsim check $p --tier $tier > /tmp/vsim-$p.log 2>&1
+  log=$(mktemp /tmp/vsim-$p-XXXX.log)
+  "$here/bin/vsim" check $p --tier $tier > $log 2>&1
   c=$?
-  tail -1 /tmp/vsim-$p.log
-  if [ $c -ne 0 ]; then echo "  exit=$c (see /tmp/vsim-$p.log)"; rc=1; fi
+  tail -1 $log
+  if [ $c -ne 0 ]; then echo "  exit=$c"; grep -E "VIOLATION|MACHINERY|violation class" $log | head -5; rc=1; else rm -f $log; fi
 done
 exit $rc
